@@ -81,4 +81,44 @@ def indexOf (p : List Stmt) (st : Stmt) : Option Nat :=
   let i := p.findIdx (· == st)
   if i < p.length then some i else none
 
+/-! ### control points of `ibb.open`
+
+The open routine as a straight-line program: `register` (`h.addStream`), and fallible steps
+(send the request, read the reply's start token, check it, check for an error reply), each with
+the information whether its error branch unregisters the stream (`h.rmStream`). -/
+
+inductive OStmt
+  | register                       -- h.addStream(sid, conn)
+  | fallible (unregisters : Bool)  -- a step followed by `if … { [h.rmStream(sid);] return nil, err }`
+  | other
+  deriving DecidableEq, Repr
+
+/-- (registered, failed) after running the program with the `k`-th statement failing -/
+def oexec (fault : Option Nat) : List OStmt → Nat → Bool → Bool × Bool
+  | [], _, reg => (reg, false)
+  | st :: rest, k, reg =>
+    match st with
+    | .register => oexec fault rest (k + 1) true
+    | .other => oexec fault rest (k + 1) reg
+    | .fallible u => if fault == some k then (reg && !u, true) else oexec fault rest (k + 1) reg
+
+/-- the sid is registered exactly when the open succeeded: no fault → registered; a fault at any
+step → not registered -/
+def registersIffAccepted (p : List OStmt) : Bool :=
+  (oexec none p 0 false == (true, false)) &&
+  (List.range p.length).all fun k =>
+    let r := oexec (some k) p 0 false
+    !r.2 || !r.1
+
+def parseOStmt (s : String) : Option OStmt :=
+  if s = "register" then some .register else if s = "fallible" then some (.fallible false)
+  else if s = "fallible+unregister" then some (.fallible true) else if s = "other" then some .other else none
+
+def parseOProgram : List String → Option (List OStmt)
+  | [] => some []
+  | x :: xs => do
+    let a ← parseOStmt x
+    let r ← parseOProgram xs
+    pure (a :: r)
+
 end XmppModel.IbbClose
